@@ -108,7 +108,8 @@ def run(tier):
         # with the ENC tag, without it, with a 2-byte ENC value, with an empty description - the FLAG decides, and the stored
         # payload must be ciphertext of the zero-padded content in all cases
         for n in (5, 16, 21, 33):
-            for desc in (CFG_DESC, {0xC3: b"\x03"}, {}, {0xC2: b"\x02\x00"}, {0xC2: b"\x00"}):
+            for desc in (CFG_DESC, {0xC3: b"\x03"}, {}, {0xC2: b"\x02\x00"}, {0xC2: b"\x00"}, {0xC2: b"\x01"}, {0xC2: b"\x03"},
+                         {0xC2: b"\x00\x02"}, {0xC2: b""}, {0xC2: b"\x01", 0xC3: b"\x02"}, {0xC1: b"\x02", 0xC2: b"\x01"}):
                 for alen in (None, n):
                     blob = content(r, n, "rnd")
                     key = L.gen_key(r)
